@@ -38,7 +38,7 @@ def _clean(obj: Any) -> Any:
 def callable_target() -> Any:  # used for statement_kind == 'callable'
     src = os.environ['NLV_CALLABLE_SRC']
     g: dict = {'__name__': '__nlv_callable__'}
-    exec(compile(src, '<callable>', 'exec'), g)
+    exec(compile(src, '<callable>', 'exec', dont_inherit=True), g)
     return g['main']()
 
 
@@ -56,7 +56,7 @@ async def amain(spec: dict) -> dict:
         p.write_text(statement)
         statement = p
     elif kind == 'code':
-        statement = compile(statement, '<string>', 'exec')
+        statement = compile(statement, '<string>', 'exec', dont_inherit=True)
     elif kind == 'callable':
         os.environ['NLV_CALLABLE_SRC'] = statement
         statement = callable_target
